@@ -410,7 +410,7 @@ type action struct {
 	binary  bool
 }
 
-var watchdog = 5 * time.Second
+var watchdog = 30 * time.Second // the property asks for termination; the slowest terminating calls seen take 4-6 s under load (Settle inside a wide Stroke)
 
 func walkScanners(p *canvas.Path) {
 	for s := p.Scanner(); s.Scan(); {
@@ -781,7 +781,7 @@ func main() {
 	only := flag.Int("only", -1, "")
 	newpath := flag.String("newpath", "", "comma separated: methods documented as returning a new path")
 	noobs := flag.Bool("noobs", false, "skip the observation half")
-	wd := flag.Float64("watchdog", 5, "seconds")
+	wd := flag.Float64("watchdog", 30, "seconds")
 	flag.Parse()
 	watchdog = time.Duration(*wd * float64(time.Second))
 	newPath := map[string]bool{}
